@@ -13,6 +13,9 @@ def scenarios(tier):
             S.append(scenario(f'fix_np{np_}_{t0}_{tend}_{dt0}', dict(NP=np_, MAXITER=1, T0=t0, TEND=tend, DT0=dt0), view='view',
                               explore=100, mc=(np_ <= 3)))
     S.append(scenario('nothing', dict(NP=2, MAXITER=1, T0=8, TEND=8, DT0=4), view='view', explore=5))
+    # negative times: the interval ends at a negative Tend / crosses zero
+    S.append(scenario('neg_np2', dict(NP=2, MAXITER=1, T0=-24, TEND=-8, DT0=4), view='view', explore=50))
+    S.append(scenario('neg_np3_cross', dict(NP=3, MAXITER=1, T0=-10, TEND=7, DT0=4), view='view', explore=50))
     # restarts and step-size changes at arbitrary positions
     S.append(scenario('rs_np3_half', dict(NP=3, MAXITER=1, TEND=12, DT0=4, MAXR=1), rs=(False, True), dtm=(0, 1), view='view',
                       constraints=['nblk <= 3'], explore=1500, mc_workers=8))
@@ -137,9 +140,9 @@ def run(tier, seed):
             if 'error' in o:
                 rep.problem('float run failed: ' + o['error'], dict(case=c), clause='tile.unexpected_library_error')
             elif o['exc'] is None:
-                runs.append(dict(tid=k + 1, case=c, **{x: o[x] for x in ('t0', 'tend', 'n_expected', 'init', 'ret', 'steps')}))
+                runs.append(dict(tid=k + 1, case=c, short=o.get('short'), **{x: o[x] for x in ('t0', 'tend', 'n_expected', 'init', 'ret', 'steps')}))
         tf = os.path.join(scratch, 'runs.json')
-        json.dump(dict(runs=[{k: v for k, v in r.items() if k != 'case'} for r in runs]), open(tf, 'w'))
+        json.dump(dict(runs=[{k: v for k, v in r.items() if k not in ('case', 'short')} for r in runs]), open(tf, 'w'))
         cfg = os.path.join(scratch, 'TT.cfg')
         tlc.write_cfg(cfg, spec='Spec', check_deadlock=False)
         res = tlc.run_tlc('TraceTiling', cfg, workers=1, timeout=1200, env_extra={'TRACE_FILE': tf})
@@ -192,4 +195,6 @@ def rounding_extra_step(r):
     n = r['n_expected']
     # the ParaDiag controller always completes its block: there the surplus is one whole block
     surplus = r['case']['NP'] if r['case'].get('ctrl') == 'paradiag' else 1
-    return len(st) == n + surplus and st[n]['near_tend'] and all(not s['near_tend'] for s in st[:n])
+    # ... and its start is below Tend by more than 10 eps in floating point although it equals Tend up to rounding: a surplus step
+    # that starts AT Tend (or within 10 eps of it) is a different defect
+    return len(st) == n + surplus and st[n]['near_tend'] and all(not s['near_tend'] for s in st[:n]) and bool(r.get('short') and r['short'][n])
